@@ -140,6 +140,14 @@ func flParked(gid *int64, fn, wait string) bool {
 	return false
 }
 
+// flGid: id of the calling goroutine
+func flGid() int64 {
+	var buf [64]byte
+	f := strings.Fields(string(buf[:runtime.Stack(buf[:], false)]))
+	id, _ := strconv.ParseInt(f[1], 10, 64)
+	return id
+}
+
 // flGo starts fn on a new goroutine and publishes its id
 func flGo(gid *int64, fn func()) {
 	go func() {
@@ -152,8 +160,8 @@ func flGo(gid *int64, fn func()) {
 }
 
 // flAwait polls until cond holds or done fires; returns "cond", "done" or "timeout"
-func flAwait(cond func() bool, done <-chan struct{}) string {
-	deadline := time.Now().Add(60 * time.Second)
+func flAwait(cond func() bool, done <-chan struct{}, seconds int) string {
+	deadline := time.Now().Add(time.Duration(seconds) * time.Second)
 	for time.Now().Before(deadline) {
 		select {
 		case <-done:
@@ -195,7 +203,9 @@ type flJob struct {
 	frozen     bool
 	committed  bool
 	acks       []flAck
-	// gated mode
+	// gated mode: a flush and a Close on goroutines of their own
+	gClose       int64 // goroutine that runs Close
+	closeCreates int   // table files created by Close
 	gateAt  string // p1 | p2
 	arrived chan struct{}
 	goOn    chan struct{}
@@ -222,7 +232,8 @@ type flCtx struct {
 	// creation times of the memory databases of the history (the shard's memory index keys their slot ranges by it)
 	stamps     map[int64]int
 	maxCreated int64
-	shared     bool // two memory databases of the history have one creation time
+	shared     bool // two memory databases of the history were created in one tick of the fast clock
+	align      bool // the next write starts right after a clock tick
 	collide    bool // do not wait for the next clock tick before a memory database is created
 	script     []string
 	dead       bool // the history cannot go on (poisoned family / unresolved)
@@ -369,6 +380,14 @@ func (c *flCtx) write(o *flObj, leader int) {
 			}
 		}
 	}
+	srows := storageRows(c.metric(row))
+	if c.align {
+		// start right after a tick of the fast clock (the next creation shall fall into the same tick)
+		c.align = false
+		for t := fasttime.UnixNano(); fasttime.UnixNano() == t; {
+			runtime.Gosched()
+		}
+	}
 	func() {
 		old := debug.SetPanicOnFault(true)
 		defer debug.SetPanicOnFault(old)
@@ -377,7 +396,7 @@ func (c *flCtx) write(o *flObj, leader int) {
 				res = "panic"
 			}
 		}()
-		if err := o.f.WriteRows(storageRows(c.metric(row))); err != nil {
+		if err := o.f.WriteRows(srows); err != nil {
 			res = "err"
 		}
 	}()
@@ -397,6 +416,7 @@ func (c *flCtx) write(o *flObj, leader int) {
 	c.next++
 	c.pend[[2]int{o.id, leader}] = row
 	stamp := 0
+	sametick := false
 	if creates {
 		has, created := c.mutableCreated(o)
 		if !has {
@@ -404,18 +424,28 @@ func (c *flCtx) write(o *flObj, leader int) {
 			c.dead = true
 			return
 		}
+		// the fast clock ticks every 5 ms: a creation time less than 1 ms away from an earlier one came from the same tick
+		// (equal before the repair of memdb.NewMemoryDatabase, last+1 since)
+		for t := range c.stamps {
+			if d := created - t; d > -1000000 && d < 1000000 {
+				sametick = true
+			}
+		}
+		if sametick {
+			c.counts["memdbs-created-in-one-tick"]++
+			c.shared = true
+		}
 		if _, ok := c.stamps[created]; !ok {
 			c.stamps[created] = len(c.stamps) + 1
 		} else {
-			c.counts["memdbs-created-in-one-tick"]++
-			c.shared = true
+			c.counts["memdbs-with-equal-creation-time"]++
 		}
 		stamp = c.stamps[created]
 		if created > c.maxCreated {
 			c.maxCreated = created
 		}
 	}
-	c.emit("Write", trace.F{"obj": o.id, "leader": leader, "row": row, "stamp": stamp})
+	c.emit("Write", trace.F{"obj": o.id, "leader": leader, "row": row, "stamp": stamp, "sametick": sametick})
 	c.proj()
 }
 
@@ -450,7 +480,12 @@ func (c *flCtx) callback(o *flObj, leader int) func(int64) {
 			c.emit("Unexpected", trace.F{"what": "acknowledgement callback outside a flush", "obj": o.id, "leader": leader, "seq": seq})
 			return
 		}
-		switch j.mode {
+		mode := j.mode
+		if mode == "gated" && flGid() == atomic.LoadInt64(&j.gClose) {
+			j.acks = append(j.acks, flAck{leader, seq, j.closeCreates})
+			return
+		}
+		switch mode {
 		case "close":
 			j.acks = append(j.acks, flAck{leader, seq, j.creates})
 		case "flush", "gated":
@@ -649,6 +684,10 @@ func (c *flCtx) onCreate() error {
 	if j == nil {
 		return nil
 	}
+	if j.mode == "gated" && flGid() == atomic.LoadInt64(&j.gClose) {
+		j.closeCreates++
+		return nil
+	}
 	j.creates++
 	if j.mode == "close" {
 		return nil
@@ -742,7 +781,7 @@ func (c *flCtx) closeObj(o *flObj) {
 }
 
 // ------------------------------------------------------------------ close-vs-flush (two goroutines, parked-state detection)
-func (c *flCtx) closeDuringFlush(at string) {
+func (c *flCtx) closeDuringFlush(at string, withWrite bool) {
 	o := c.cur
 	if o == nil || o.closed || c.job != nil {
 		return
@@ -751,7 +790,7 @@ func (c *flCtx) closeDuringFlush(at string) {
 	c.job = j
 	flushDone := make(chan struct{})
 	var flushErr error
-	var gFlush, gClose int64
+	var gFlush int64
 	flGo(&gFlush, func() { flushErr = o.f.Flush(); close(flushDone) })
 	select {
 	case <-j.arrived:
@@ -780,43 +819,86 @@ func (c *flCtx) closeDuringFlush(at string) {
 		return
 	}
 	c.note("close-vs-flush:%s", at)
+	if withWrite {
+		// a row written during the flush: Close has a mutable database to flush afterwards
+		c.write(o, 1)
+		c.commit(o, 1)
+	}
 	closeDone := make(chan struct{})
-	flGo(&gClose, func() { _ = o.f.Close(); close(closeDone) })
-	// Close took the family mutex and waits for the flush (flushCondition.Wait under the mutex)
-	switch flAwait(func() bool { return flParked(&gClose, "tsdb.(*dataFamily).Close", "sync.(*WaitGroup).Wait") }, closeDone) {
+	var closeErr error
+	flGo(&j.gClose, func() { closeErr = o.f.Close(); close(closeDone) })
+	// Close waits for the running flush (flushCondition.Wait); nothing of the family is read from here on until both
+	// calls returned -- if Close held the family mutex while waiting, GetState would never return
+	switch flAwait(func() bool { return flParked(&j.gClose, "tsdb.(*dataFamily).Close", "sync.(*WaitGroup).Wait") }, closeDone, 60) {
 	case "done":
 		c.emit("Unexpected", trace.F{"what": "Close returned while a flush of the family runs", "obj": o.id})
-		c.poison, c.dead = true, true
+		c.dead = true
 		close(j.goOn)
+		<-flushDone
+		c.job = nil
 		return
 	case "timeout":
-		c.unresolved("close-vs-flush: Close neither returned nor parked")
+		c.unresolved("close-vs-flush: Close neither returned nor waits for the flush")
 		c.poison = true
 		close(j.goOn)
 		return
 	}
-	c.emit("CloseBegin", trace.F{"obj": o.id})
-	o.locked = true
-	c.proj()
 	close(j.goOn)
-	// the flush goes on (commit, callbacks, memdb close) and then needs the mutex
-	switch flAwait(func() bool { return flParked(&gFlush, "tsdb.(*dataFamily).Flush", "sync.(*Mutex).Lock") }, flushDone) {
-	case "cond":
+	// the flush goes on: commit, callbacks, memdb close, second mutex section.  Bounded: a flush that stands at the
+	// family mutex (or does not come back in time) is an observation, recorded as the event Stuck
+	switch flAwait(func() bool { return flParked(&gFlush, "tsdb.(*dataFamily).Flush", "sync.(*Mutex).Lock") }, flushDone, 30) {
+	case "done":
+	default:
 		if !j.committed {
 			c.emit("FlushCommit", trace.F{"obj": o.id})
 		}
 		c.emit("FlushRelease", trace.F{"obj": o.id})
-		c.emit("Stuck", trace.F{"obj": o.id})
-		c.proj()
+		c.emit("Stuck", trace.F{"obj": o.id, "what": "the flush waits for the family mutex, Close (holding it) waits for the flush"})
 		c.note("stuck")
 		c.counts["stuck-histories"]++
-	case "done":
-		c.emit("Unexpected", trace.F{"what": "the flush completed although Close holds the family mutex", "obj": o.id})
-	default:
-		c.unresolved("close-vs-flush: the flush neither returned nor parked")
+		// the two goroutines stay parked for ever: this engine cannot be closed any more
+		c.poison, c.dead = true, true
+		return
 	}
-	// the two goroutines stay parked for ever: this engine cannot be closed any more
-	c.poison, c.dead = true, true
+	if flushErr != nil {
+		c.emit("Unexpected", trace.F{"what": "Flush failed: " + flushErr.Error(), "obj": o.id})
+		c.dead = true
+	}
+	if !j.committed {
+		c.emit("FlushCommit", trace.F{"obj": o.id})
+	}
+	c.emit("FlushRelease", trace.F{"obj": o.id})
+	c.emit("FlushDrop", trace.F{"obj": o.id})
+	// now Close takes the mutex and flushes what is in memory
+	select {
+	case <-closeDone:
+	case <-time.After(30 * time.Second):
+		c.emit("Stuck", trace.F{"obj": o.id, "what": "Close did not return after the flush completed"})
+		c.poison, c.dead = true, true
+		return
+	}
+	c.job = nil
+	if closeErr != nil {
+		c.emit("Unexpected", trace.F{"what": "Close failed: " + closeErr.Error(), "obj": o.id})
+		c.dead = true
+		return
+	}
+	c.emit("CloseBegin", trace.F{"obj": o.id})
+	c.emit("CloseWait", trace.F{"obj": o.id})
+	for k := 1; k <= j.closeCreates; k++ {
+		c.emit("CloseCommit", trace.F{"obj": o.id})
+		for _, a := range j.acks {
+			if a.creates == k {
+				c.emit("CloseAck", trace.F{"obj": o.id, "leader": a.leader, "seq": a.seq})
+			}
+		}
+		c.emit("CloseNext", trace.F{"obj": o.id})
+	}
+	c.emit("CloseEnd", trace.F{"obj": o.id})
+	o.closed = true
+	c.counts["close-during-flush-completed"]++
+	c.proj()
+	c.read()
 }
 
 // ------------------------------------------------------------------ evict-vs-retain
@@ -854,7 +936,7 @@ func (c *flCtx) evictRace(leader int, retain bool) {
 	evDone := make(chan struct{})
 	var gEvict int64
 	flGo(&gEvict, func() { o.f.Evict(); close(evDone) })
-	switch flAwait(func() bool { return flParked(&gEvict, "tsdb.(*dataFamily).Evict", "sync.(*Mutex).Lock") }, evDone) {
+	switch flAwait(func() bool { return flParked(&gEvict, "tsdb.(*dataFamily).Evict", "sync.(*Mutex).Lock") }, evDone, 60) {
 	case "cond":
 		c.emit("EvictRef", trace.F{"obj": o.id, "go": true})
 		if retain {
@@ -976,7 +1058,7 @@ func (c *flCtx) randomHistory(steps int) {
 			c.ackReg(c.cur, 1)
 			c.write(c.cur, 1)
 			c.commit(c.cur, 1)
-			c.closeDuringFlush([]string{"p1", "p2"}[c.rng.Intn(2)])
+			c.closeDuringFlush([]string{"p1", "p2"}[c.rng.Intn(2)], c.rng.Intn(2) == 0)
 		}
 	case 1:
 		if c.cur != nil {
@@ -1073,11 +1155,11 @@ func (c *flCtx) scripted(name string) {
 	case "closeflush-p1":
 		w(1)
 		c.ackReg(o, 1)
-		c.closeDuringFlush("p1")
+		c.closeDuringFlush("p1", true)
 	case "closeflush-p2":
 		c.ackReg(o, 1)
 		w(1)
-		c.closeDuringFlush("p2")
+		c.closeDuringFlush("p2", false)
 	case "evictrace":
 		w(1)
 		w(2)
@@ -1099,9 +1181,7 @@ func (c *flCtx) scripted(name string) {
 		// two memory databases of the family created in one tick of the 5 ms clock: the second one is created by a
 		// write during the flush of the first
 		c.ackReg(o, 1)
-		for t := fasttime.UnixNano(); fasttime.UnixNano() == t; {
-			runtime.Gosched()
-		}
+		c.align = true
 		w(1)
 		c.collide = true
 		c.flush(o, flPlan{p1: func() { w(1) }})
@@ -1241,7 +1321,7 @@ func famlifeMain(args []string) int {
 		}
 		if s == "stamp" {
 			// until the two creations really fell into one tick (each attempt is a valid history either way)
-			for k := 0; k < 8 && counts["memdbs-created-in-one-tick"] == 0; k++ {
+			for k := 0; k < 40 && counts["memdbs-created-in-one-tick"] == 0; k++ {
 				run(n, s, true)
 				n++
 			}
